@@ -49,6 +49,12 @@ OBS_RANDOM = ["distances", "angles", "dihedrals", "rmsd", "rg", "gyration_moment
 OBS_PERIODIC = ["distances", "displacements_norm", "angles", "dihedrals", "neighbors", "neighborlist"]
 OBS_PERIODIC_PROTEIN = OBS_PERIODIC + ["contacts", "baker_hubbard"]
 DISCRETE = {"baker_hubbard", "dssp", "wernet_nilsson"}
+TORSIONS = ["phi", "psi", "omega", "chi1", "chi2", "chi3", "chi4", "chi5"]
+CONTACT_SCHEMES = ["ca", "closest", "closest-heavy", "sidechain", "sidechain-heavy"]
+
+
+def tors(which, periodic, opt):
+    return "tors:%s:%s:%s" % (which, "T" if periodic else "F", "T" if opt else "F")
 # multi-frame trajectories (each frame its own motion / lattice shifts / cell): observables that one call returns per frame
 OBS_MULTI_PROTEIN = ["distances", "angles", "dihedrals", "rmsd", "rg", "gyration_moments", "contacts", "wernet_nilsson",
                      "kabsch_sander", "dssp", "neighbors", "neighborlist", "drid"]
@@ -108,6 +114,23 @@ def rigid_jobs(ctx):
             variants.append({"kind": "rigid", "q": rand_quat(rng), "t": [0.0, 0.0, 0.0]})   # pure rotation
             jobs.append({"structure": st, "box": None, "seed": rng.randrange(1 << 30), "cutoff": 0.45,
                          "observables": obs, "variants": variants, "label": label, "T": T, "n_sphere_points": 480})
+    # A trajectory that CARRIES a unit cell but is analysed with periodic=False: plain Euclidean geometry, hence invariant
+    # under rigid motion.  The cell (2.2 x 2.6 x 2.0 nm resp. sheared) is smaller than the protein, so a call that falls
+    # back to the minimum image folds many of the requested separations and changes under rotation.
+    npobs = ["distances", "displacements_norm", "angles", "dihedrals", "neighbors", "neighborlist", "baker_hubbard",
+             "wernet_nilsson"] + ["contacts:" + sc for sc in CONTACT_SCHEMES] + \
+            [tors(w, False, o) for w in TORSIONS for o in (True, False)]
+    for box in ([[2.2, 0, 0], [0, 2.6, 0], [0, 0, 2.0]], [[2.2, 0, 0], [0.7, 2.6, 0], [-0.5, 0.9, 2.0]]):
+        for T in ((1.0,) if quick else (1.0, 30.0)):
+            E = ulp32(T + 8.0)
+            variants = [{"kind": "ref"}] + [{"kind": "jitter", "eps": E, "seed": rng.randrange(1 << 30)} for _ in range(3)]
+            variants += [{"kind": "rigid", "q": rand_quat(rng), "t": rand_dir(rng, T)} for _ in range(2 if quick else 6)]
+            variants.append({"kind": "rigid", "q": rand_quat(rng), "t": [0.0, 0.0, 0.0]})
+            jobs.append({"structure": {"pdb": "1vii.pdb", "frame": 0}, "box": box, "periodic_flag": False,
+                         "seed": rng.randrange(1 << 30), "cutoff": 0.45, "observables": npobs,
+                         "observables_nojitter": [o for o in npobs if o.startswith("tors:") or o.startswith("contacts:")],
+                         "variants": variants, "label": "1vii/cell-carried-periodic=False/%s" % ("ortho" if box[1][0] == 0 else "triclinic"),
+                         "T": T, "n_sphere_points": 240})
     # MULTI-FRAME: one trajectory whose frames are the same structure, each frame under its OWN rigid motion; every
     # per-frame observable must equal the one of the untransformed multi-frame trajectory, frame by frame
     multi = [({"pdb": "1vii.pdb", "frame": 0}, OBS_MULTI_PROTEIN, "1vii.pdb#0/multi", 3),
@@ -168,8 +191,14 @@ def lattice_jobs(ctx):
         variants += [{"kind": "lattice", "shifts": "random", "range": 2, "seed": rng.randrange(1 << 30)},
                      {"kind": "lattice", "shifts": "random", "range": 1, "seed": rng.randrange(1 << 30),
                       "whole": [rng.randrange(-20 * U, 20 * U) / U for _ in range(3)]}]
+        # named torsion helpers with EXPLICIT flags (periodic=True x opt in {True, False}) under per-atom lattice shifts:
+        # every helper in the rectangular cell; in the sheared cell the slow reference path for two of them (all: thorough)
+        tz = [tors(w, True, True) for w in TORSIONS]
+        slow = TORSIONS if (box[1][0] == 0 or not quick) else rng.sample(TORSIONS, 2)
+        tz += [tors(w, True, False) for w in slow]
         jobs.append({"structure": {"pdb": "1vii.pdb", "frame": 0}, "snap": True, "center_in_box": True, "box": box,
-                     "seed": rng.randrange(1 << 30), "cutoff": 0.45, "observables": OBS_PERIODIC_PROTEIN,
+                     "seed": rng.randrange(1 << 30), "cutoff": 0.45, "observables": OBS_PERIODIC_PROTEIN + tz,
+                     "observables_nojitter": tz,
                      "variants": variants, "label": "1vii/%s" % ("ortho" if box[1][0] == 0 else "triclinic"), "T": 0.0,
                      "kind": "ortho" if box[1][0] == 0 else "triclinic"})
     # MULTI-FRAME with a cell whose KIND changes from frame to frame (exactly orthorhombic first and sheared later,
@@ -241,6 +270,8 @@ class Cmp:
         self.x0 = np.array(res["xyz0"]).reshape(-1, 3)
         self.idx = {k: np.array(v, dtype=int) for k, v in res["index_sets"].items()}
         self.box = res["box_seen"]
+        if job.get("periodic_flag") is False:
+            self.box = None                      # the cell is carried but every call says periodic=False
         self.periodic = self.box is not None
         self._dm = None
 
@@ -311,9 +342,22 @@ class Cmp:
             tol = 4 * E * (1 / l1 + 1 / l2) + np.minimum(1e-6 / s, 1.5e-3) + 1e-6
             amb = self.ambiguous(tr[:, 0], tr[:, 1], E) | self.ambiguous(tr[:, 2], tr[:, 1], E)
             return self._cont(name, jv, r, t, tol, mask=~amb)
-        if name == "dihedrals":
-            r, t = np.array(ro), np.array(to)
-            q = idx["quartets"]
+        if name.startswith("tors:"):
+            if ro["idx"] != to["idx"]:
+                self.fail(name, jv, "named torsion helper: atom index list changes under the transformation", "differs", "same",
+                          kind="discrete_changed")
+                return "fail"
+            if not ro["idx"]:
+                return "ok"
+        if name == "dihedrals" or name.startswith("tors:"):
+            if name == "dihedrals":
+                r, t = np.array(ro), np.array(to)
+                q = idx["quartets"]
+            else:
+                r, t = np.array(ro["v"]), np.array(to["v"])
+                q = np.array(ro["idx"], dtype=int)
+                if name.split(":")[2] == "F" and self.periodic:
+                    raise RuntimeError("a periodic=False torsion is not invariant under lattice shifts: not a C09 case")
             l1, l2, l3 = self._len(q[:, 0], q[:, 1]), self._len(q[:, 1], q[:, 2]), self._len(q[:, 2], q[:, 3])
             s1 = self._sin(q[:, 0], q[:, 1], q[:, 2])
             s2 = self._sin(q[:, 1], q[:, 2], q[:, 3])
@@ -334,7 +378,7 @@ class Cmp:
         if name == "rmsd":
             r, t = np.array(ro), np.array(to)
             return self._cont(name, jv, r, t, np.full(r.shape, 1.5 * E + 3e-5))
-        if name == "contacts":
+        if name == "contacts" or name.startswith("contacts:"):
             r, t = np.array(ro["d"]), np.array(to["d"])
             if ro["pairs"] != to["pairs"]:
                 self.fail(name, jv, "compute_contacts: residue pair list changes under the transformation", "differs", "same",
